@@ -3,6 +3,7 @@ import Just.Model.Quote
 import Just.Model.Path
 import Just.Model.Words
 import Just.Model.Percent
+import Just.Model.Case
 import Just.Model.Determinism
 import Just.Generated.Tables
 import Just.Model.Lexer
@@ -132,7 +133,18 @@ def handleClean (j : Json) : Except String Json := do
     ("file_name", o (Path.fileName q)), ("extension", o (Path.extensionOf q)), ("file_stem", o (Path.fileStem q)),
     ("parent_directory", o (Path.parentStr q)), ("without_extension", o (Path.withoutExtension q)),
     ("join", match parts with | b :: ws => Json.str (String.ofList (Path.joinPaths b ws)) | [] => Json.null),
-    ("searchClean", match parts with | [inv, rel] => Json.str (String.ofList (Path.searchClean inv rel)) | _ => Json.null)]
+    ("searchClean", match parts with | [inv, rel] => Json.str (String.ofList (Path.searchClean inv rel)) | _ => Json.null),
+    ("absolute_path", match j.getObjValAs? String "wd" with
+      | .ok wd => Json.str (String.ofList (Path.absolutePath wd.toList q)) | _ => Json.null)]
+
+/-- {"op":"case","s":S} → the seven case conversions of S (null outside the model: non-ASCII text) -/
+def handleCase (j : Json) : Except String Json := do
+  let t ← j.getObjValAs? String "s"
+  let cs := t.toList.map Char.toNat
+  let o (fn : String) : String × Json := (fn, match Case.apply fn cs with
+    | some l => Json.str (String.ofList (l.map Char.ofNat)) | none => Json.null)
+  return Json.mkObj (["kebabcase", "snakecase", "shoutykebabcase", "shoutysnakecase", "titlecase", "uppercamelcase",
+    "lowercamelcase"].map o)
 
 /-- {"op":"entries","decls":[Decl],"aliases":[AliasOf]} → the `--list` entries of each recipe -/
 def handleEntries (j : Json) : Except String Json := do
@@ -586,6 +598,7 @@ def handle (line : String) : Json :=
       | "clean" => handleClean j
       | "entries" => handleEntries j
       | "percent" => handlePercent j
+      | "case" => handleCase j
       | "confirm" => handleConfirm j
       | "validparams" => handleValidParams j
       | "positional" => handlePositional j
